@@ -2,7 +2,7 @@
 # usage: mutcheck.sh <patch.diff> <property> [function-filter]
 # Applies a patch to a scratch worktree of /repo (HEAD + uncommitted contract files), runs the check there, removes the worktree.
 set -u
-PATCH=$1; PROP=$2; FUNC=${3:-}
+PATCH=$(cd "$(dirname "$1")" && pwd)/$(basename "$1"); PROP=$2; FUNC=${3:-}
 S=$(mktemp -d /tmp/mut.XXXXXX)
 git -C /repo worktree add -q --detach "$S" HEAD || exit 2
 # carry over uncommitted contract files
